@@ -26,7 +26,7 @@ theorem fg_chunk {f : File} (hg : GoodF f) (sr p : Nat) (hsr : 1 ≤ sr) (hp : p
     getitemSlice f (some (sr : Int)) (some (p : Int)) (some ((min (p + sr) f.index.length : Nat) : Int)) none =
       ((strided p (min (p + sr) f.index.length) 1).map (fun i t => getEvent f i t), Err.stop) := by
   obtain ⟨⟨o, hgood⟩, _⟩ := hg
-  exact getitemSlice_eq hgood (some (sr : Int)) (some (p : Int)) _ none
+  exact getitemSlice_eq hgood.rd (some (sr : Int)) (some (p : Int)) _ none
     (by intro k h; cases h; omega) (by simp [normIdx]; omega) (by simp [normIdx]; omega) rfl
     (by omega) (by omega) (by decide)
 
